@@ -36,10 +36,9 @@ Qed.
 (* --- ... and converts back to the same bits --- *)
 Theorem C15_l2_roundtrip : forall i v g cb,
   info_rng i -> cluster_shift i = cb -> g < 2 ^ 56 -> s_l2_valid cb v = true ->
-  (s_l2_compressed v = true -> s_l2_clength cb v < 2 ^ cb) ->
   call g_L2Entry_from_mapping [v_mapping (l2_into_mapping i v g); VInt cb] = Ret (VInt v).
 Proof.
-  intros i v g cb R Hcs Hg Hv Hlen. pose proof R as R0; dR R0.
+  intros i v g cb R Hcs Hg Hv. pose proof R as R0; dR R0.
   assert (Hcb : 9 <= cb <= 21) by (subst cb; assumption).
   assert (Hg64 : g < 2 ^ 64) by (eapply N.lt_trans; [exact Hg|reflexivity]).
   assert (Hco : sg_cluster_offset i g <= 72057594037927935).
@@ -48,20 +47,20 @@ Proof.
     change (2 ^ 56) with 72057594037927936 in Hg. lia. }
   rewrite geq_l2_from_mapping.
   - f_equal. f_equal. destruct (s_l2_compressed v) eqn:Ec.
-    + apply roundtrip_compressed; try assumption. apply Hlen. reflexivity.
+    + apply roundtrip_compressed; assumption.
     + apply roundtrip_std; assumption.
   - assumption.
   - apply into_mapping_pre; auto.
 Qed.
 
-(* the side condition on compressed entries cannot be dropped: a specification-valid compressed
-   entry whose byte budget reaches the cluster size makes from_mapping panic (finding F27) *)
+(* includes the entries on which the unrepaired code panicked (finding F27, fixed): a compressed
+   entry whose byte budget reaches the cluster size *)
 Definition f27_info : info := info_of 16 4 1048576 9 12 2 12 2 0.
 Definition f27_entry : N := 2 ^ 62 + 128 * 2 ^ 54 + 65536 + 300.
-Theorem C15_F27_refuted :
+Example C15_F27_fixed :
   s_l2_valid 16 f27_entry = true /\ s_l2_compressed f27_entry = true /\
   2 ^ 16 <= s_l2_clength 16 f27_entry /\
-  call g_L2Entry_from_mapping [v_mapping (l2_into_mapping f27_info f27_entry 0); VInt 16] = Panic.
+  call g_L2Entry_from_mapping [v_mapping (l2_into_mapping f27_info f27_entry 0); VInt 16] = Ret (VInt f27_entry).
 Proof. vm_compute. repeat split; congruence. Qed.
 
 (* --- refcount get/set of every width --- *)
@@ -138,20 +137,18 @@ Qed.
 (* non-vacuity: a concrete geometry and entry meet the hypotheses *)
 Example C15_nonvacuous :
   info_rng f27_info /\ s_l2_valid 16 (2 ^ 63 + 5 * 65536) = true /\
-  s_l2_valid 16 (2 ^ 62 + 3 * 2 ^ 54 + 70000) = true /\
-  s_l2_clength 16 (2 ^ 62 + 3 * 2 ^ 54 + 70000) < 2 ^ 16.
+  s_l2_valid 16 (2 ^ 62 + 3 * 2 ^ 54 + 70000) = true.
 Proof.
   split; [apply info_of_rng; constructor; cbn; try lia; reflexivity|].
   vm_compute. repeat split; congruence.
 Qed.
 
 Check C15_l1_entry. Check C15_rt_entry. Check C15_l2_decode. Check C15_l2_roundtrip.
-Check C15_F27_refuted. Check C15_refcount. Check C15_guest_split. Check C15_host_split.
+Check C15_refcount. Check C15_guest_split. Check C15_host_split.
 Print Assumptions C15_l1_entry.
 Print Assumptions C15_rt_entry.
 Print Assumptions C15_l2_decode.
 Print Assumptions C15_l2_roundtrip.
-Print Assumptions C15_F27_refuted.
 Print Assumptions C15_refcount.
 Print Assumptions C15_guest_split.
 Print Assumptions C15_host_split.
